@@ -11,6 +11,12 @@ CHECKS = {
    design="3/C04"),
 }
 
+CHECKS["C14"] = dict(level="exploration", engine="sweep",
+   technique="complete enumeration of finite value / byte-pattern domains through pass-through hooks against RFC tables in zmodel",
+   text="Every literal length 0..=131071, match length 3..=131074, offset value (all 2^32-1 in thorough, all below 2^22 plus every code boundary in quick), sequence count 1..=98047 through the writer, every 1/2/3-byte count pattern and truncation through the parser, all 2^24 block headers, every serialisable block header, all 256x256 descriptor/window byte pairs x field boundary values (+ all truncations), all 1/2/3-byte literals-header strings, the 4-byte form (complete in thorough) and the 5-byte form (each field complete), the raw-literals writer for every length, the repeat-offset rule over a closed value set, and the frame header written for every matcher window up to 2^41. Finite domains, so the right level is complete enumeration; exhaustive:true per sub-domain is reported separately.",
+   note="Trusts zmodel::tables / walker header parsers as a transcription of RFC 8878 (independently pinned to libzstd by the frames of C01). The reserved frame-descriptor bit is deliberately not compared (the crate ignores it; no property forbids that).",
+   design="3/C14")
+
 NOT_YET = {}
 
 def main():
